@@ -2,6 +2,7 @@
 import copy
 import decimal
 import inspect
+import os
 import itertools
 import shutil
 from collections.abc import MutableMapping, MutableSequence
@@ -10,7 +11,7 @@ from hypothesis import strategies as st
 
 from .. import ops, wm
 from ..classes import ABSENT, ALL, CLASSES, HarnessError, new_resource, reset_class_state
-from ..plain import h64
+from ..plain import enc, h64
 from ..runner import Acc, CaseFailure, hyp_search
 from ..world import Mismatch, get_path
 from synced_collections import SyncedCollection
@@ -22,10 +23,14 @@ RULE = ("Enumerated product (complete in BOTH tiers, 'exhaustive': true) of entr
         "update(pairs), update(**kw), update(mapping, **kw), reset, append, extend, insert, +=} x "
         "target {root, nested dict, nested list, container at depth 3} x invalid item {non-str keys 1, "
         "1.5, None, True, (1,2); values object(), set, complex, class instance, Decimal; for "
-        "attribute-access families a dotted key} x embedding {direct, in dict, in list, depth 2 both "
+        "attribute-access families a dotted key, also inside a LIVE synced collection of a plain family "
+        "passed as the value} x embedding {direct, in dict, in list, depth 2 both "
         "ways, depth 3, first/last among valid siblings} x 18 classes; plus Hypothesis-generated random "
         "embeddings to depth 4. Entry points are cross-checked against the public API by "
-        "introspection. Oracle: the call raises a TypeError/ValueError subclass; a walk of the "
+        "introspection. A third part runs, for the 12 JSON classes under the deterministic scheduler, "
+        "every entry point with forbidden data on one thread while another thread is in the middle of "
+        "a valid nested-value operation on the same collection tree (all single-preemption schedules "
+        "/ all preemption sites). Oracle: the call raises a TypeError/ValueError subclass; a walk of the "
         "in-memory node tree and of the independently read resource finds no forbidden item; for "
         "single-element entry points content and raw resource bytes are exactly as before. "
         "Non-trivial = invalid item not at the top level of the argument, or target not the root; "
@@ -47,7 +52,10 @@ BAD_KEYS = {"k_int": 1, "k_float": 1.5, "k_none": None, "k_bool": True, "k_tuple
 BAD_VALS = {"v_object": object, "v_set": lambda: {1, 2}, "v_complex": lambda: 1j,
             "v_instance": _Inst, "v_decimal": lambda: decimal.Decimal("1.5")}
 DOTTED = {"k_dotted": "a.b"}
-ITEMS = list(BAD_KEYS) + list(BAD_VALS) + list(DOTTED)
+# a LIVE synced collection of a plain family that legitimately holds a dotted key: forbidden as a
+# value for the attribute-access families only
+SYNCED = {"k_dotted_synced_dict": "dict", "k_dotted_synced_list": "list"}
+ITEMS = list(BAD_KEYS) + list(BAD_VALS) + list(DOTTED) + list(SYNCED)
 
 EMBED = ["direct", "in_dict", "in_list", "dict_list", "list_dict", "depth3", "sib_first", "sib_last"]
 
@@ -85,15 +93,26 @@ def target_path(kind, target, want):
 
 
 def is_forbidden(ci, item):
-    if item in DOTTED:
+    if item in DOTTED or item in SYNCED:
         return ci.attr
     if item in BAD_VALS:
         return ci.backend != "zarr"
     return True
 
 
-def make_item(item):
+def make_item(item, directory=None):
     """(the invalid thing as a *value*, is_key_kind)."""
+    if item in SYNCED:
+        import json as _json
+        from synced_collections.backends.collection_json import JSONDict, JSONList
+        p = os.path.join(directory, "src_" + item + ".json")
+        if SYNCED[item] == "dict":
+            with open(p, "w") as f:
+                _json.dump({"fine": 1, "a.b": {"x": 1}}, f)
+            return JSONDict(p), False
+        with open(p, "w") as f:
+            _json.dump([1, {"a.b": 2}], f)
+        return JSONList(p), False
     if item in BAD_VALS:
         return BAD_VALS[item](), False
     k = BAD_KEYS[item] if item in BAD_KEYS else DOTTED[item]
@@ -233,7 +252,9 @@ def cases_for(ci):
                         if entry != "reset_merge_tail" and _first(cur, need) is None:
                             continue
                     keyish = entry.endswith("_key")
-                    if keyish and item in BAD_VALS:
+                    if keyish and (item in BAD_VALS or item in SYNCED):
+                        continue
+                    if entry == "ctor" and item in SYNCED:
                         continue
                     for how in (["direct"] if keyish else EMBED):
                         if entry == "ctor" and how == "direct" and item in BAD_VALS:
@@ -258,7 +279,7 @@ def run_case(case, extra_embed=None):
             obj = obj[k]
         before_raw = res.raw()
         before_mem = root()
-        val, keykind = make_item(item)
+        val, keykind = make_item(item, d)
         badkey = None
         if entry.endswith("_key"):
             badkey = next(iter(val))
@@ -328,7 +349,66 @@ def check_api():
 def shards(tier):
     reps = 1 if tier == "quick" else 3
     return [{"cls": c.name, "mode": "enum"} for c in ALL] + \
-           [{"cls": c.name, "mode": "random", "rep": r} for c in ALL for r in range(reps)]
+           [{"cls": c.name, "mode": "random", "rep": r} for c in ALL for r in range(reps)] + \
+           [{"cls": c.name, "mode": "threads"} for c in ALL if c.backend == "json"]
+
+
+def run_threads(ci, acc, tier="quick"):
+    """A second thread offers forbidden data while the first is in the middle of a valid operation
+    on the same collection tree (all single-preemption schedules): it must be rejected all the same."""
+    from .. import conc, sched
+    from ..plain import dec
+    kind = ci.kind
+    doc = {"l": [1], "d": {"x": 1}} if kind == "dict" else [[1], {"x": 1}]
+    handles = [{"file": 0}, {"of": 0, "path": enc(["l"] if kind == "dict" else [0])},
+               {"of": 0, "path": enc(["d"] if kind == "dict" else [1])}]
+    kinds = [kind, "list", "dict"]
+    big = {"a": [{"b": [1, 2, {"c": 3}]}], "z": [[1], [2]]}
+    slow = {"h": 0, "m": "setitem", "a": enc(["big", big])} if kind == "dict" else {"h": 0, "m": "append", "a": enc([big])}
+    invs = ["intkey"] + (["dotkey"] if ci.attr else [])
+    entries = []
+    for inv in invs:
+        v = {"$inv": inv}
+        lh, dh = 1, 2
+        entries += [(lh, "extend", [[v]]), (lh, "append", [v]), (lh, "insert", [0, v]), (lh, "iadd", [[v]]),
+                    (lh, "setitem", [0, v]), (lh, "reset", [[v]]),
+                    (dh, "setitem", ["k", v]), (dh, "update", [{"k": v}]), (dh, "setdefault", ["k2", v]),
+                    (dh, "reset", [{"k": v}])]
+        if kind == "list":
+            entries += [(0, "extend", [[v]]), (0, "append", [v])]
+        else:
+            entries += [(0, "update", [{"k": v}]), (0, "setitem", ["k", v])]
+    from ..plain import enc as _enc
+    for (h, m, a) in entries:
+        program = {"property": ID, "class": ci.name, "docs": [_enc(doc)], "root_kinds": [kind],
+                   "handles": handles, "kinds": kinds,
+                   "threads": [[slow], [{"h": h, "m": m, "a": a}]]}
+        base, bres, ones, exhaustive = conc.one_preemption_schedules(
+            program, 2, full_limit=0 if tier == "quick" else 2000, per_site=1 if tier == "quick" else 2)
+        results = bres + sched.explore(program, ones)
+        for sc, res in zip(base + ones, results):
+            bad = None
+            if res.get("crashes") and any(res["crashes"]):
+                raise HarnessError("worker crashed: " + str([c for c in res["crashes"] if c][0]))
+            if res["deadlock"] or any(res["leaks"]):
+                bad = {"what": "deadlock_or_leak_while_rejecting", "schedule": sc}
+            else:
+                out = res["history"][1][0]["out"] if res["history"][1] else None
+                if out is None or out[0] != "raise" or out[1] not in ("TypeError", "ValueError"):
+                    bad = {"what": "accepted_while_other_thread_mid_operation", "entry": m, "handle": h,
+                           "outcome": out, "schedule": sc}
+                else:
+                    final = res["final"][0]
+                    found = walk_forbidden(ci, dec(final)) if final != "$ABSENT" else None
+                    if found:
+                        bad = {"what": "forbidden_in_backend", "found": found, "schedule": sc}
+            ov = conc.overlapping(res)
+            acc.case([h64("thr", ci.name, m, h, str(s_[3])) for s_ in ov], None, {"threads.executions": 1})
+            if bad is not None and len(acc.failures) < 2:
+                acc.failures.append({"case": {"property": ID, "engine": "c11threads", "program": program,
+                                              "schedule": sc}, "desc": bad})
+    if len(acc.samples) < 2:
+        acc.samples.append({"threads_part": {"class": ci.name, "slow_op": slow, "entries": len(entries)}})
 
 
 def _fails(case, fn=None):
@@ -343,6 +423,9 @@ def run_shard(spec, seed, tier, active):
     check_api()
     ci = CLASSES[spec["cls"]]
     acc = Acc()
+    if spec["mode"] == "threads":
+        run_threads(ci, acc, tier)
+        return acc.result()
     if spec["mode"] == "enum":
         roots = set()
         for case in cases_for(ci):
@@ -352,7 +435,8 @@ def run_shard(spec, seed, tier, active):
                      {f"entry={case[1]}": 1, f"target={case[2]}": 1, f"item={case[4]}": 1})
             if d is not None:
                 # one failure per (entry, item-kind) root cause bucket
-                key = (case[1], "dotted" if case[4] in DOTTED else "key" if case[4] in BAD_KEYS else "val")
+                key = (case[1], "dotted" if case[4] in DOTTED else "synced" if case[4] in SYNCED
+                       else "key" if case[4] in BAD_KEYS else "val")
                 if key not in roots and len(acc.failures) < 3:
                     roots.add(key)
                     acc.failures.append({"case": {"property": ID, "engine": "c11", "case": list(case)},
@@ -394,6 +478,19 @@ def run_shard(spec, seed, tier, active):
 
 
 def replay(case):
+    if case.get("engine") == "c11threads":
+        from .. import sched
+        from ..plain import dec
+        ci = CLASSES[case["program"]["class"]]
+        res = sched.explore(case["program"], [case["schedule"]])[0]
+        out = res["history"][1][0]["out"] if res["history"][1] else None
+        if res["deadlock"] or any(res["leaks"]):
+            return {"what": "deadlock_or_leak_while_rejecting"}
+        if out is None or out[0] != "raise" or out[1] not in ("TypeError", "ValueError"):
+            return {"what": "accepted_while_other_thread_mid_operation", "outcome": out}
+        final = res["final"][0]
+        found = walk_forbidden(ci, dec(final)) if final != "$ABSENT" else None
+        return {"what": "forbidden_in_backend", "found": found} if found else None
     c = tuple(case["case"])
     shape = case.get("shape")
     fn = None
